@@ -113,7 +113,7 @@ CKept == CListed \cap CRows                                            \* ... an
 CAssignable == {g \in CKept : CTriple(g) # <<0, 0, 1>>}                \* eligible minus must-exclude
 CIndexOK(o) == Range(o) \subseteq CAssignable
 CPositions(o) == 0..(Len(o) - 1)
-CAggTS(o, S) == [k \in 1..Len(CColSeq) |-> SumFn(S, [p \in S |-> CCell(o[p + 1], CColSeq[k])])]
+CAggTS(o, S) == LET cs == CColSeq IN [k \in 1..Len(cs) |-> SumFn(S, [p \in S |-> CCell(o[p + 1], cs[k])])]
 CAggShare(o, S) == <<SumFn(S, [p \in S |-> CTotal(o[p + 1])]), CGrand>>
 CClass(o, c, t, x) == {p \in CPositions(o) : CTriple(o[p + 1]) = <<c, t, x>>}
 CCan(o, k) == {p \in CPositions(o) : CTriple(o[p + 1])[k] = 1}
@@ -131,9 +131,10 @@ SampledCells(c) == HashCells(c) % CellMod = CellRes
 StateHash == Mix(HashCells(cells), EligHash(elig))
 Orders == SeqsOver(AllGeos)
 DefaultOrder == SelectSeq(rowOrder, LAMBDA g : g \in assignable)   \* what TBRMatchedMarkets hands in
-SampledOrder(o) == \/ o = DefaultOrder
-                   \/ LET h == Mix(StateHash, Fold(o, 1, Len(o) + 1))
-                      IN IF Range(o) \subseteq assignable THEN h % OrdModOK = 0 ELSE h % OrdModBad = 0
+SampledOrder(o, sh, dflt) ==      \* sh = StateHash, dflt = DefaultOrder (evaluated once per state)
+  \/ o = dflt
+  \/ LET h == Mix(sh, Fold(o, 1, Len(o) + 1))
+     IN IF Range(o) \subseteq assignable THEN h % OrdModOK = 0 ELSE h % OrdModBad = 0
 
 \* ---------------------------------------------------------------- implementation-shaped pipeline
 None == <<>>
@@ -217,8 +218,10 @@ PosClass(o, c, t, x) == {p \in 0..(Len(o) - 1) : Triples[recon[o[p + 1]]] = <<c,
 PosCan(o, k) == {p \in 0..(Len(o) - 1) : Triples[recon[o[p + 1]]][k] = 1}
 SetGeoIndex ==
   /\ pc = "ready"
-  /\ \E o \in Orders :
-       /\ SampledOrder(o)
+  /\ LET sh == StateHash
+         dflt == DefaultOrder
+     IN \E o \in Orders :
+       /\ SampledOrder(o, sh, dflt)
        /\ order' = o
        /\ IF Range(o) \ assignable # {}
           THEN pc' = "error_index" /\ UNCHANGED <<arr, arrShare, gassign>>
@@ -308,6 +311,8 @@ SubsetOfMask(n, m) == {p \in 0..(n - 1) : (m \div Pow2(p)) % 2 = 1}
 SetSeq(S) == SetToSeq(S)
 CaseRecord ==
   LET rs == SetToSeq(CRows)
+      cs == CColSeq
+      ks == SetToSeq(CKept)
       hasOrder == pc \in {"done", "error_index"}
       o == IF hasOrder THEN order ELSE <<>>
       idxOK == pc = "done"
@@ -320,13 +325,13 @@ CaseRecord ==
       elig_rows |-> [g \in AllGeos |-> IF elig.given /\ elig.row[g] # 0 THEN Triples[elig.row[g]] ELSE <<>>],
       construct_ok |-> (pc # "error_construct"),
       rows |-> rs,
-      cols |-> CColSeq,
-      table |-> [i \in 1..Len(rs) |-> [k \in 1..Len(CColSeq) |-> CCell(rs[i], CColSeq[k])]],
+      cols |-> cs,
+      table |-> [i \in 1..Len(rs) |-> [k \in 1..Len(cs) |-> CCell(rs[i], cs[k])]],
       totals |-> [i \in 1..Len(rs) |-> CTotal(rs[i])],
       grand |-> CGrand,
       absent |-> SetToSeq(CAbsent),
-      kept |-> SetToSeq(CKept),
-      kept_rows |-> [i \in 1..Cardinality(CKept) |-> CTriple(SetToSeq(CKept)[i])],
+      kept |-> ks,
+      kept_rows |-> [i \in 1..Len(ks) |-> CTriple(ks[i])],
       assignable |-> SetToSeq(CAssignable),
       has_order |-> hasOrder,
       order |-> o,
